@@ -24,14 +24,11 @@ Lemma strcmp_trans a : forall b c, nonzero_bytes a -> nonzero_bytes b -> nonzero
   strcmp a b <= 0 -> strcmp b c <= 0 ->
   strcmp a c <= 0 /\ (strcmp a b < 0 \/ strcmp b c < 0 -> strcmp a c < 0).
 Proof.
-  induction a as [|x a IH]; intros [|y b] [|z c] Ha Hb Hc; cbn [strcmp]; intros H1 H2;
+  induction a as [|x a IH]; intros [|y b] [|z c] Ha Hb Hc; cbn [strcmp];
     try (inversion Ha as [|? ? Hx Ha']; subst); try (inversion Hb as [|? ? Hy Hb']; subst); try (inversion Hc as [|? ? Hz Hc']; subst);
     try lia.
-  destruct (Z.eqb_spec x y) as [->|N1]; destruct (Z.eqb_spec y z) as [->|N2].
-  - rewrite Z.eqb_refl. apply IH with (b := b); assumption.
-  - destruct (Z.eqb_spec y z); lia.
-  - destruct (Z.eqb_spec x z); lia.
-  - destruct (Z.eqb_spec x z); lia.
+  destruct (Z.eqb_spec x y) as [E1|N1]; destruct (Z.eqb_spec y z) as [E2|N2]; destruct (Z.eqb_spec x z) as [E3|N3]; try lia.
+  apply IH; assumption.
 Qed.
 
 (** * order on named members (case-sensitive) *)
@@ -62,7 +59,8 @@ Lemma div2_le n : (Nat.div2 n <= n)%nat.
 Proof. apply Nat.div2_decr. lia. Qed.
 Lemma div2_S_lt n : (2 <= n)%nat -> (Nat.div2 (S n) < n)%nat.
 Proof.
-  intro H. destruct n as [|[|m]]; try lia. cbn [Nat.div2]. pose proof (Nat.div2_decr m m (Nat.le_refl _)). lia.
+  intro H. destruct n as [|[|m]]; try lia. change (Nat.div2 (S (S (S m)))) with (S (Nat.div2 (S m))).
+  pose proof (Nat.div2_decr (S m) m (Nat.le_refl _)). lia.
 Qed.
 Lemma div2_S_pos n : (1 <= n)%nat -> (0 < Nat.div2 (S n))%nat.
 Proof. intro H. destruct n as [|m]; [lia|]. cbn [Nat.div2]. lia. Qed.
